@@ -359,6 +359,49 @@ func VerifH18b() {
 }
 
 // ---------------------------------------------------------------------------
+// H18x — what a callback keeps outlives the connection it came from (C18): a
+// first connection's parser and session middleware keep the query text and the
+// client parameters they were shown (next to private copies); the connection
+// ends; a second connection with the same buffer size sends a start-up packet
+// and queries of its own. Afterwards everything kept from the first connection
+// still equals its copy.
+// ---------------------------------------------------------------------------
+func VerifH18x() {
+	q1 := nondetBytes(3)
+	vAssume(vNoNUL(q1))
+	vAssume(vAnd(q1[0] > ' ', q1[0] < 0x7f)) // (a blank query is answered without the parser)
+	u1 := vSymText(2)
+	var keptQuery, keptUser string
+	var copyQuery, copyUser []byte
+	mw := SessionMiddleware(func(ctx context.Context) (context.Context, error) {
+		if RemoteAddress(ctx).(vAddr).id == 0 {
+			keptUser = ClientParameters(ctx)[ParamUsername]
+			copyUser = append([]byte{}, keptUser...)
+		}
+		return ctx, nil
+	})
+	parse := func(ctx context.Context, query string) (PreparedStatements, error) {
+		if RemoteAddress(ctx).(vAddr).id == 0 {
+			keptQuery = query
+			copyQuery = append([]byte{}, query...)
+		}
+		fn := func(ctx context.Context, dw DataWriter, params []Parameter) error { return dw.Complete("T") }
+		return Prepared(NewStatement(fn)), nil
+	}
+	srv, err := NewServer(parse, MessageBufferSize(64), mw)
+	vAssert("newserver-ok", err == nil)
+	c1 := vNewConn(vCat(vStartup(vKV([]byte("user"), u1)), vMsgBytes('Q', vCStr(q1)), vMsgBytes('X', nil)))
+	c2 := vNewConn(vCat(vStartup(vKV([]byte("user"), []byte("mallory"))), vMsgBytes('Q', vCStr([]byte("zzzzzzzz"))), vMsgBytes('Q', vCStr([]byte("yyyy"))), vMsgBytes('X', nil)))
+	c2.id = 1
+	srv.serve(context.Background(), c1) //nolint
+	srv.serve(context.Background(), c2) //nolint
+	vAssert("first-connection-served", copyQuery != nil && copyUser != nil)
+	vAssert("query-kept-from-an-ended-connection-unchanged", vEqStr(keptQuery, string(copyQuery)))
+	vAssert("client-parameter-kept-from-an-ended-connection-unchanged", vEqStr(keptUser, string(copyUser)))
+	vReach("a-second-connection-after-the-first-ended")
+}
+
+// ---------------------------------------------------------------------------
 // H03c — surplus or unread fields of one message never leak into the next
 // (C03, session level): a first message with surplus bytes after its last
 // field (or with fields the handler does not read), then a second message;
